@@ -20,6 +20,47 @@ var c13IncoherentPairs = [][2]cty.Value{
 
 func c13D13(ctx *Ctx) {
 	c13D13Incoherent(ctx)
+	c13D13Index(ctx)
+}
+
+// index / hasindex on their whole key domain (C13.index_list_any_number, index_tuple, index_map):
+// every odd number (fractional, negative zero, beyond int64, infinite) as key of lists and tuples of
+// every length 0-6; every key of c13Keys, present or absent, on maps of 0-3 entries; keys of the wrong type.
+func c13D13Index(ctx *Ctx) {
+	strs := []cty.Value{cty.StringVal("a"), cty.StringVal("b"), cty.StringVal("c"), cty.StringVal("d"), cty.StringVal("e"), cty.StringVal("f")}
+	mixed := []cty.Value{cty.StringVal("a"), cty.NumberIntVal(1), cty.True, cty.NullVal(cty.String), cty.EmptyTupleVal, cty.StringVal("f")}
+	run := func(name string, args []cty.Value) {
+		res := c13Case(ctx, name, args, false)
+		c13Judge(ctx, name, args, res)
+		ctx.Tag("d13:index:" + name + ":" + res.class)
+	}
+	for l := 0; l <= 6; l++ {
+		list := c13List(cty.String, strs[:l])
+		tup := cty.TupleVal(mixed[:l])
+		for _, odd := range c13OddNumbers {
+			for _, name := range []string{"index", "hasindex"} {
+				run(name, []cty.Value{list, odd})
+				run(name, []cty.Value{tup, odd})
+			}
+		}
+		for _, bad := range []cty.Value{cty.StringVal("0"), cty.True, cty.NullVal(cty.Number)} {
+			run("index", []cty.Value{list, bad})
+			run("index", []cty.Value{tup, bad})
+		}
+	}
+	for n := 0; n <= 3; n++ {
+		m := map[string]cty.Value{}
+		for i := 0; i < n; i++ {
+			m[c13Keys[i]] = cty.NumberIntVal(int64(i))
+		}
+		mv := c13Map(cty.Number, m)
+		for _, k := range c13Keys {
+			run("index", []cty.Value{mv, cty.StringVal(k)})
+			run("hasindex", []cty.Value{mv, cty.StringVal(k)})
+		}
+		run("index", []cty.Value{mv, cty.NumberIntVal(0)})
+		run("index", []cty.Value{mv, cty.NullVal(cty.String)})
+	}
 }
 
 func c13D13Incoherent(ctx *Ctx) {
